@@ -55,6 +55,15 @@ def step (t : Tree) : List String → Tree × String
       (t, s!"{showOutcome (dispatch env t path)} | valid={showBool (checkValid env t path)} | exists={showBool ex}")
     | none => (t, "bad-op")
   -- the hand-written contract tables (Model/Schema.lean), so that the rig's contract oracle reads them from Lean
+  -- tree edits: `edit add|remove <key>* -- <k>`: key order of a manager after `addKey` / `removeKey` (Model/Schema.lean)
+  | "edit" :: op :: toks =>
+    let keys := toks.takeWhile (· ≠ "--")
+    match toks.dropWhile (· ≠ "--") with
+    | ["--", k] =>
+      let kids : Kids := keys.map (fun x => (x, 0, Tree.leaf 0))
+      let res := if op = "add" then Schema.addKey k 1 (.leaf 1) kids else Schema.removeKey k kids
+      (t, " ".intercalate (res.map (fun e => e.1)))
+    | _ => (t, "bad-op")
   | ["guards", action] => (t, " ".intercalate ((Schema.expectedGuards action).map Schema.VAtom.show))
   | ["gate", root, key] =>
     match Schema.Root.parse root with
